@@ -616,10 +616,6 @@ def case_project2d(ctx, H, W, scales, angle, remove_centre, fork_mask=True, cent
 
 # --------------------------------------------------------------------------- relocate_to_radial_minimum
 
-class _FakeConfInstance(dict):
-    pass
-
-
 class _FakeConf:
     """stands in for `autoconf.conf` inside relocate_radial: radial minima per class name are the given values"""
 
@@ -669,7 +665,6 @@ def _make_grid(aa, kind, pts, mask=None):
 
 def body_relocate(inp, kind, N, mode, H=0, W=0):
     import autoarray as aa
-    from autoarray.structures.decorators import relocate_radial as rr_mod
     import sys
     rr_mod = sys.modules["autoarray.structures.decorators.relocate_radial"]
     _ensure_config()
@@ -765,9 +760,10 @@ def body_relocate_centre(inp, kind, rcls):
     E["calls"] = 1
     seen = log[-1]["coords"] if log else None
     if isinstance(seen, np.ndarray) and seen.shape == (2, 2):
-        # the centre point must arrive at exactly the minimum radius (any direction); it has no solver variable of its own:
-        # its obligation is stated relative to the symbolic neighbour so that the whole grid is covered in one query
-        A["centre_point.radius2"] = seen[0, 0] * seen[0, 0] + seen[0, 1] * seen[0, 1] + 0.0 * q[0, 0]
+        # the centre point must arrive at exactly the minimum radius (any direction). It is a concrete corner: the engine's
+        # 'divisor != 0' domain constraint excludes r = 0 from the symbolic cases, so this obligation has no solver variable
+        # of its own (the neighbour in the same grid is symbolic) - stated in OUTSIDE.
+        A["centre_point.radius2"] = seen[0, 0] * seen[0, 0] + seen[0, 1] * seen[0, 1]
         E["centre_point.radius2"] = rmin * rmin
         TOL = {"centre_point.radius2": 1e-9}
         _reloc_obligations(A, E, "neighbour", [(q[0, 0], q[0, 1])], seen[1:2], rmin, TOL)
@@ -934,7 +930,10 @@ def cases(tier):
     # decorator stack
     for N in range(1, (2 if quick else 3) + 1):
         out.append(("case_stack", {"kind": "irregular", "N": N, "rot": None}, NRA))
-    out.append(("case_stack", {"kind": "grid2d", "N": 0, "rot": None, "H": 1 if quick else 2, "W": 2}, NRA))
+    out.append(("case_stack", {"kind": "grid2d", "N": 0, "rot": None, "H": 1 if quick else 2, "W": 2}, NRA if quick else dict(NRA, split=4)))
+    # long cases first (the pool takes tasks in list order)
+    rank = {"case_stack": 0, "case_relocate": 1, "case_project2d": 2, "case_grid2d": 3}
+    out.sort(key=lambda c: (rank.get(c[0], 9), -(c[1].get("H", 1) * c[1].get("W", 1) + c[1].get("N", 0))))
     return out
 
 
@@ -944,9 +943,6 @@ NRA = {"logic": "QF_NRA", "timeout_ms": 20000}
 def replay(cand):
     body = BODIES[cand["case_fn"]]
     inp = hx.to_float_struct(cand["case"])
-
-    def run(inp_, **kw):
-        return body(inp_, **kw)
 
     # tolerance-aware replay: bodies publish per-key tolerances in inp['_tol']
     actual, expected = body(inp, **cand["case_kwargs"])
